@@ -18,6 +18,42 @@ import (
 type Case = rtreekit.History
 
 func gen(t *rapid.T) Case {
+	h := gen0(t)
+	if h.Wide == 0 && rapid.IntRange(0, 7).Draw(t, "emptytail") == 0 {
+		h.EmptyTail = rapid.IntRange(1, 3).Draw(t, "emptytailn")
+	}
+	return h
+}
+
+// emptyTail: see History.EmptyTail
+func emptyTail(m *rtreekit.Model, c Case) string {
+	for i := 0; i < c.EmptyTail; i++ {
+		b := geom.NewBounds()
+		m.Tree.Insert(b)
+		m.Live = append(m.Live, b)
+		if m.Tree.Size() != len(m.Live) {
+			return fmt.Sprintf("Size() = %d, %d objects are stored", m.Tree.Size(), len(m.Live))
+		}
+		p := geom.Point{X: 1.25 + float64(i), Y: 0.75 - float64(2*i)}
+		for _, viaK := range []bool{false, true} {
+			if msg := nnWrong(m, p, viaK); msg != "" {
+				return msg
+			}
+		}
+		dists, stored := m.SortedDists(p), rtreekit.Count(m.Live)
+		for _, k := range []int{len(m.Live), len(m.Live) + 1, len(m.Live) - 1} {
+			if k < 1 {
+				continue
+			}
+			if msg := knnWrong(m, k, p, dists, stored, eps); msg != "" {
+				return msg
+			}
+		}
+	}
+	return ""
+}
+
+func gen0(t *rapid.T) Case {
 	h := rtreekit.GenHistory(t, "nn")
 	if rapid.IntRange(0, 299).Draw(t, "wide") == 77 {
 		h = rtreekit.History{Kind: "point", Max: rapid.SampledFrom([]int{66, 80, 100, 128}).Draw(t, "widemax"), Min: rapid.SampledFrom([]int{2, 2, 10, 30}).Draw(t, "widemin"),
@@ -91,7 +127,7 @@ func probe(m *rtreekit.Model, b *geom.Bounds) string {
 			if o == nil {
 				return fmt.Sprintf("nearest-neighbour query from %v after the delete returned nil (size %d)", p, len(m.Live))
 			}
-			if got := rtreekit.BoxDist(p, o.Bounds()); vkit.Off(got-best, eps) {
+			if got := rtreekit.BoxDist(p, o.Bounds()); got != best && vkit.Off(got-best, eps) {
 				return fmt.Sprintf("nearest-neighbour query from %v right after the delete returned an object at distance %v, the minimum over the %d stored objects is %v (depth %d)", p, got, len(m.Live), best, m.Tree.Depth())
 			}
 		}
@@ -116,7 +152,7 @@ func nnWrong(m *rtreekit.Model, p geom.Point, viaK bool) string {
 	if o == nil {
 		return fmt.Sprintf("nearest-neighbour query from %v returned nil (size %d)", p, len(m.Live))
 	}
-	if got := rtreekit.BoxDist(p, o.Bounds()); vkit.Off(got-best, eps) {
+	if got := rtreekit.BoxDist(p, o.Bounds()); got != best && vkit.Off(got-best, eps) {
 		return fmt.Sprintf("nearest-neighbour query from %v returned an object at distance %v, the minimum over the %d stored objects is %v (depth %d)", p, got, len(m.Live), best, m.Tree.Depth())
 	}
 	return ""
@@ -154,7 +190,7 @@ func knnWrong(m *rtreekit.Model, k int, p geom.Point, dists []float64, stored ma
 			return fmt.Sprintf("NearestNeighbors(%d): distances not in non-decreasing order at slot %d", k, j)
 		}
 		prev = d
-		if vkit.Off(d-dists[j], tol) {
+		if d != dists[j] && vkit.Off(d-dists[j], tol) {
 			return fmt.Sprintf("NearestNeighbors(%d, %v): slot %d is at distance %v but the %d-th smallest distance among the %d stored objects is %v (depth %d)", k, p, j, d, j+1, len(m.Live), dists[j], depth)
 		}
 	}
@@ -401,7 +437,7 @@ func run(c Case) (v vkit.Verdict) {
 						msg = fmt.Sprintf("NearestNeighbor(%v) returned %v which is not stored", p, o)
 						return
 					}
-					if d := rtreekit.BoxDist(p, o.Bounds()); vkit.Off(d-dists[0], tol) {
+					if d := rtreekit.BoxDist(p, o.Bounds()); d != dists[0] && vkit.Off(d-dists[0], tol) {
 						msg = fmt.Sprintf("NearestNeighbor(%v) returned an object at distance %v, the minimum is %v (size %d, depth %d)", p, d, dists[0], len(m.Live), depth)
 					}
 					return
@@ -500,6 +536,17 @@ func run(c Case) (v vkit.Verdict) {
 			return v.Fail("after op %d (%s) of %d [min=%d max=%d kind=%s]: %s", i, op.K, len(c.Ops), c.Min, c.Max, c.Kind, msg)
 		}
 	}
+	if c.EmptyTail > 0 {
+		v.Class("tail_of_objects_without_extent")
+		var msg string
+		if p := vkit.Catch(func() { msg = emptyTail(m, c) }); p != "" {
+			return v.Fail("a query after storing an object without extent (geom.NewBounds()) panicked [%d stored objects, min=%d max=%d]: %s", len(m.Live), c.Min, c.Max, p)
+		}
+		if msg != "" {
+			return v.Fail("after storing objects without extent (geom.NewBounds(), infinitely far from every point) [min=%d max=%d kind=%s]: %s", c.Min, c.Max, c.Kind, msg)
+		}
+		v.NonTrivial = true
+	}
 	if queries == 0 {
 		v.Class("no_query")
 	}
@@ -529,7 +576,8 @@ func TestProp(t *testing.T) {
 			"Non-trivial = a k>=2 query on a tree of depth>=2, a tie at the k-th distance, or a probe battery after a delete. Distinct by case hash." +
 			" Round 9: after deleting steps the snapshot is searched for sparse subtrees (fewer objects than the minimum fill of their level gives, or <= 12 right under the root) and k-nearest queries with k one and two above their size are issued from the middle of their box and of their first object; one query point in ten is multiplied by 2^300..2^1015." +
 			" Round 10: 'nnrep' (the point of the last k = 1 query again, bit for bit) and 'nnswap' (ask, insert an object on the point, delete another object, ask again) in one query op out of seven each." +
-			" Round 11: 'wide' cases (1 in 300): fan-out 66-128, the points (+-g^i, +-g^-i) for |i| <= 1500..3000 in a drawn order, 400 k = 1 queries from the axes and around the origin.",
+			" Round 11: 'wide' cases (1 in 300): fan-out 66-128, the points (+-g^i, +-g^-i) for |i| <= 1500..3000 in a drawn order, 400 k = 1 queries from the axes and around the origin." +
+			" Round 13: one history in eight ends with a tail that stores one to three objects without extent (geom.NewBounds(), at infinite distance) and queries k = 1, Size-1, Size and Size+1 after each: they are stored objects and take the last slots.",
 		Assumptions: []string{"ties are compared by distance, not identity", "queries are only issued on non-empty trees", "the search for misleading node boxes reads the structure through the build-tag verif snapshot (index/rtree/verif_walk.go); verdicts come from NearestNeighbor / NearestNeighbors only",
 			"coordinates stay below the magnitude (about 1e150) at which the package's squared distances and box areas overflow: beyond it Insert's area comparisons and the MaxFloat64 'nothing found yet' marker of the queries stop working (observed by a round-6 author: points at 1e200 queried from the origin give nil slots), which is a limit of the whole package, not of the search order this property is about"},
 		Gen:      gen,
